@@ -11,11 +11,13 @@ use std::collections::VecDeque;
 
 pub const PUSH: u8 = 0;
 pub const POP: u8 = 1;
+pub const PROBE: u8 = 2;
 
 pub fn ev_name(e: Ev) -> String {
     match e.k {
         PUSH => "Push()".into(),
         POP => "Pop()".into(),
+        PROBE => "Probe()".into(),
         255 => "DropBuffer()".into(),
         _ => "?".into(),
     }
@@ -142,6 +144,10 @@ impl<P: Payload> RbCore<P> {
         if !self.model.is_empty() {
             out.push(Ev::new(POP, 0, 0));
         }
+        if self.cap == 0 {
+            // nothing else is legal on a zero capacity buffer: observe it at least
+            out.push(Ev::new(PROBE, 0, 0));
+        }
     }
 
     fn step(&mut self, ev: Ev, ctx: &mut Ctx) {
@@ -173,6 +179,7 @@ impl<P: Payload> RbCore<P> {
                     }
                 }
             }
+            PROBE => {}
             _ => unreachable!(),
         }
         self.post(ctx);
